@@ -345,7 +345,33 @@ def run(ctx, crate):
                 somes.append(d)
             elif rv["k"] == "agg" and rv.get("variant") == "None":
                 nones.append(d)
-    ctx.floor(rule, len(somes), 1, cfg, "Some(..) values of BarDisplay.cur")
+    # `(flag == 1).then(|| index)`: Some exactly when the condition holds, payload = the closure's result
+    thens = []
+    for l in seen:
+        for d in b.defs().get(l, ()):
+            if d["kind"] == "call" and d["call"].matches(r"core::bool::<impl bool>::then(_some)?") and len(d["call"].args) == 2:
+                thens.append(d["call"])
+    ctx.floor(rule, len(somes) + len(thens), 1, cfg, "Some(..) values of BarDisplay.cur")
+    for k, c in enumerate(thens):
+        tfacts = true_facts(b, c.args[0], c.bb)
+        okf = tfacts != ALL and (norm_fact("Eq", ("l", head_local), ("c", "1")) in tfacts or norm_fact("Ne", ("l", head_local), ("c", "0")) in tfacts or want <= tfacts)
+        # and, being `then`, None exactly when the condition is false: the condition must be nothing more than the flag test
+        extra = set() if tfacts == ALL else {x for x in tfacts if x not in want and ("l", head_local) not in (x[1], x[2])}
+        ctx.check(okf and not extra, rule, "some-iff-flag#then%d" % k, b.name, c.loc(),
+                  "the partial cell is present exactly when the flag is set (bool::then on the flag test)",
+                  "bool::then builds the partial cell on a condition that is not the flag test", cfg)
+        cl = None
+        l2 = operand_local(c.args[1])
+        for d in b.defs().get(l2, ()) if l2 is not None else ():
+            if d["kind"] == "assign" and d["rv"]["k"] == "agg" and d["rv"].get("ak") == "closure":
+                cl = crate.bodies.get(d["rv"]["def"])
+        if cl is not None:
+            rsl = [cl.slice_rv(d["bb"], {"lhs": d["lhs"], "rv": d["rv"]}) if d["kind"] == "assign" else cl.slice_args(d["call"]) for d in cl.defs().get(0, ()) if d["kind"] in ("assign", "call")]
+            src_ok = any(any(a[0] == "field" and (a[2] == "progress_chars" or str(a[2]).endswith("progress_chars")) for a in sl.atoms) for sl in rsl)
+            grows = any([a for a in sl.atoms if a[0] == "binop" and a[1] in ("Add", "AddWithOverflow")] or [x for x in sl.calls if x.matches(r"core::num::<impl usize>::(saturating_add|wrapping_add|checked_add)")] for sl in rsl)
+            ctx.check(src_ok, rule, "index-from-charset#then%d" % k, b.name, c.loc(), "the partial cell's index derives from the number of configured characters",
+                      "the partial cell's index does not derive from progress_chars.len()", cfg)
+            ctx.check(not grows, rule, "index-never-grows#then%d" % k, b.name, c.loc(), "the index is obtained by subtraction only", "the partial cell's index is increased", cfg)
     flag1 = norm_fact("Eq", ("l", head_local), ("c", "1"))
     flag0n = norm_fact("Ne", ("l", head_local), ("c", "0"))
     for k, d in enumerate(somes):
